@@ -261,10 +261,18 @@ pub fn matching_signatures(kind: &str, op: &Op, pre: &IdealTree) -> Vec<&'static
     let mut out = Vec::new();
     let _ = pre;
     match op {
-        Op::Batch { vals, rem, .. } => {
-            // the mixed (write + remove) arm of PmTree::override_range
+        Op::Batch { start, vals, rem } => {
+            // the mixed (write + remove) arm of PmTree::override_range. When every removal index lies inside the
+            // written range and the smallest one equals `start` the tree state comes out right and only the
+            // empty-leaf flags are wrong ("pm_batch_mixed_flags"); every other shape corrupts the state.
             if is_pm_kind(kind) && !vals.is_empty() && !rem.is_empty() {
-                out.push("pm_batch_mixed");
+                let min = *rem.iter().min().unwrap();
+                let max = *rem.iter().max().unwrap();
+                if min == *start && max < start.saturating_add(vals.len()) {
+                    out.push("pm_batch_mixed_flags");
+                } else {
+                    out.push("pm_batch_mixed");
+                }
             }
         }
         Op::Reset | Op::Init { .. } => {
@@ -1332,9 +1340,12 @@ fn run_trace_inner(trace: &Trace, ctx: &mut Ctx, run_dir: &std::path::Path) -> R
             let owner = owner_for(&kind, &step.op);
             // removal indices are single bytes at the byte level
             let inexpressible = is_rln && matches!(&step.op, Op::Batch { rem, .. } if rem.iter().any(|r| *r > 255));
+            let flags_matter = matches!(prop.as_str(), "C15" | "C16");
             let sigs: Vec<&str> = matching_signatures(&kind, &step.op, &node.model)
                 .into_iter()
                 .filter(|s| ctx.known.contains(*s))
+                // a shape that only mis-sets the empty-leaf flags is executed for real unless the profile reads them
+                .filter(|s| *s != "pm_batch_mixed_flags" || flags_matter)
                 .collect();
             if let Some(sig) = sigs.first() {
                 if signature_skips(sig) {
@@ -1827,6 +1838,9 @@ fn gen_range(rng: &mut Prng, m: &IdealTree, uniq: &mut u64) -> (usize, Vec<Fr>) 
         _ => room + 1,                              // one too many
     };
     let len = len.min(40);
+    // pmtree's batch insertion walks every leaf of the right half below the written range: at depth 20 a
+    // multi-leaf range in the right part of the tree takes ~10 s, so deep trees keep ranges on the left
+    let start = if m.depth >= 16 && len > 1 && start >= (1 << 14) { start % (1 << 14) } else { start };
     (start, gen_vals(rng, len, uniq))
 }
 
